@@ -270,7 +270,12 @@ def run(plan: dict[str, Any]) -> dict[str, Any]:
             elif k == "user_disconnect":
                 info["closed_at"] = loop.time()
                 info["closed_by"] = "user"
-                info["user_disc"] = loop.create_task(conn.disconnect())
+                async def user_disc():
+                    try:
+                        await conn.disconnect()
+                    finally:
+                        info["user_disc_ret"] = loop.time()
+                info["user_disc"] = loop.create_task(user_disc())
                 R.extra_faults["user_disconnect"] += 1
             elif k == "indication":
                 if gw.last_cid in gw.channels:
@@ -354,9 +359,35 @@ def run(plan: dict[str, Any]) -> dict[str, Any]:
                     if seen is None:
                         R.probes["server_disconnect_not_seen_by_client"] += 1
                         continue
+                elif info.get("closed_by") == "tcp":
+                    # the client learns of the close when the end of the stream reaches it
+                    seen = next((t for (n, t, it, kind, actor, detail) in R.events
+                                 if t >= info["closed_at"] and kind == "tcp_lost"), info["closed_at"])
+                elif info.get("closed_by") == "user" and info.get("user_disc_ret") is not None:
+                    # disconnect() runs a Disconnect exchange with the server first; the connection is closed when it returns
+                    seen = info["user_disc_ret"]
+                    if rec["t_ret"] <= seen:
+                        R.probes["failed_promptly_after_close"] += 1
+                        continue
                 late = rec["t_ret"] - seen
-                if late > 10.0 + 1e-6:
+                # was the request still waiting for its acknowledgement (UDP) when the close became known?
+                acked = True
+                if tr == "udp":
+                    # (the outstanding request = the one transmitted last; others wait behind it for the connection)
+                    last = max(((t, W.split(bytes.fromhex(detail))[1][2]) for (n, t, it, kind, actor, detail) in R.events
+                                if kind == "udp_out" and t <= seen and str(actor).startswith(net.local_ip + ":")
+                                and (W.split(bytes.fromhex(detail)) or (0,))[0] == W.DEVCFG_REQ), default=None)
+                    acked = last is not None and any(
+                        kind == "udp_in" and last[0] <= t <= seen and f">{net.local_ip}:" in str(actor)
+                        and (lambda sp: sp and sp[0] == W.DEVCFG_ACK and len(sp[1]) >= 4 and sp[1][2] == last[1] and sp[1][3] == 0)(
+                            W.split(bytes.fromhex(detail)))
+                        for (n, t, it, kind, actor, detail) in R.events)
+                if late > 1e-6 and (acked or late > 10.0 + 1e-6):
                     R.violate("C32.prompt-failure", "failed-late-after-close", f"request {rec['i']} failed {late:.3f}s after the connection was closed")
+                elif late > 1e-6:
+                    R.violate("C32.prompt-failure", "failed-late-after-close:while-waiting-for-acknowledgement",
+                              f"request {rec['i']}: the outstanding request was transmitted but not acknowledged yet when the connection was closed "
+                              f"({info.get('closed_by')}); it failed {late:.3f}s later, when the acknowledgement timeout ran out")
                 else:
                     R.probes["failed_promptly_after_close"] += 1
     # at most one request outstanding: first transmissions of distinct requests never overlap an unfinished one
